@@ -44,11 +44,11 @@ type CMsg struct {
 
 // CCase is one case printed by GossipCrashMC.
 type CCase struct {
-	Fl    string `json:"fl"`
-	Topic string `json:"topic"`
-	M     CMsg   `json:"m"`
-	Bytes string `json:"bytes"`
-	Recv  string `json:"recv"`
+	Fl    string          `json:"fl"`
+	Topic string          `json:"topic"`
+	M     CMsg            `json:"m"`
+	Bytes string          `json:"bytes"`
+	Recv  string          `json:"recv"`
 	Raw   json.RawMessage `json:"-"` // the JSON text TLC printed (goes into the trace unchanged)
 }
 
